@@ -385,6 +385,8 @@ impl Check for C14 {
         ctx.judge(bp, |c, r, o| self.oracle(c, r, o))?;
         let tp: Vec<Case> = super::evalorder::THIS_PROGRAMS.iter().enumerate().map(|(i, p)| Case::new(p.to_string(), 1, format!("`this` per call and per creation site, program {}", i))).collect();
         ctx.judge(tp, |c, r, o| self.oracle(c, r, o))?;
+        let sr: Vec<Case> = super::evalorder::SELF_READ_PROGRAMS.iter().enumerate().map(|(i, p)| Case::new(p.to_string(), 1, format!("the key of a call through an object reads that object, program {}", i))).collect();
+        ctx.judge(sr, |c, r, o| self.oracle(c, r, o))?;
         // arguments are evaluated once, left to right (and before the callee), also with spreads
         let eo: Vec<Case> = super::evalorder::cases(2).into_iter().filter(|c| c.meta.contains("(@")).collect();
         ctx.judge(eo, |c, r, o| self.oracle(c, r, o))?;
